@@ -1,7 +1,7 @@
 """Oracles for the cache properties over the history produced by vf.harness.cache."""
 import asyncio as aio
 
-from vf.harness.cache import InvFailure, innermost_aiuti_frame
+from vf.harness.cache import InvFailure, InvBaseFailure, innermost_aiuti_frame
 from vf.runner import V
 
 EPS = 1e-6
@@ -116,7 +116,7 @@ def c06(case, hist):
                          f" ({others} other-loop exit(s) while it was pending)",
                          'foreign-cancel:other-loop-shutdown' if others else 'foreign-cancel:unexplained'))
             continue
-        if isinstance(e, InvFailure):
+        if isinstance(e, (InvFailure, InvBaseFailure)):
             r = invs[e.inv]
             if r['caller'] != cid:
                 out.append(V('foreign-exception', f"caller {cid} received the failure of invocation {e.inv} performed by caller {r['caller']}",
